@@ -273,6 +273,10 @@ pub fn valid_proto(s: &mut Src, o: &ProtoOpts) -> Vec<Rec> {
             if used.contains(&name) || name.to_lowercase().starts_with("xml") {
                 name = format!("{name}_{i}");
             }
+            // (a renamed record can collide with a name generated earlier: every record needs its own name)
+            while used.contains(&name) {
+                name.push('x');
+            }
             used.push(name.clone());
             let ty = if o.fat { RType::Double { min: None, max: None } } else { rtype(s, TypeRule::Any) };
             p.push(Rec { prefix: Some(prefix), name, ty });
@@ -484,9 +488,11 @@ pub fn limit_val(s: &mut Src) -> LimitVal {
 
 /// Extension namespace URI: any non-empty string XML can carry.
 pub fn ext_url(s: &mut Src, prefix: &str) -> String {
-    match s.weighted(&[3, 2]) {
+    match s.weighted(&[6, 4, 1]) {
         0 => format!("http://example.com/{}/{}", prefix, s.below(1000)),
-        _ => format!("http://example.com/{prefix}?a=1&b={}", xml_string(s)),
+        1 => format!("http://example.com/{prefix}?a=1&b={}", xml_string(s)),
+        // URIs that merely start like the standard's own or like a reserved one are ordinary extension URIs
+        _ => format!("{}/{prefix}", s.pick(&["http://www.astm.org/COMMIT/E57/2010-e57-v1.0", "http://www.w3.org/XML/1998/namespace", "http://www.astm.org/COMMIT/E57/2010-e57-v1.0/extensions"])),
     }
 }
 
@@ -830,7 +836,7 @@ pub fn extension(s: &mut Src, taken: &[String]) -> (String, String) {
         p.push('q');
     }
     // distinct URI per prefix: two prefixes bound to one URI are the same XML namespace
-    let url = format!("http://example.com/{}/{}", p, s.below(1000));
+    let url = if s.chance(1, 4) { ext_url(s, &p) } else { format!("http://example.com/{}/{}", p, s.below(1000)) };
     (p, url)
 }
 
@@ -870,6 +876,9 @@ pub fn cloud_layout(s: &mut Src, c: &Cloud) -> CloudLayout {
     }
     cl.publish_index = s.flag();
     cl.tail_chunk = *s.pick(&[0u16, 0, 1, 7, 64, 1000, 40000]);
+    if s.chance(1, 3) {
+        cl.restart_every = 1 + s.below(3) as u8;
+    }
     let widths: Vec<usize> = c.proto.iter().map(|r| r.ty.width() as usize).collect();
     let n = c.points.len();
     let k = s.below(6) as usize;
